@@ -68,3 +68,65 @@ def build(name, instr_srcs=(), plain_srcs=(), whole=False, extra_libs=(), varian
         cmd += list(extra_libs) + ["-lhwloc", "-lm", "-ldl", "-lpthread"]
         _run(cmd)
     return exe
+
+
+def build_ranked(name, driver_srcs, plain_srcs, nranks, variant="B", extra_plain=(), extra_libs=(), defines=(),
+                 driver_extra_objs=()):
+    """Runtime-level harness: `nranks` private copies of (libparsec + driver) in one executable.
+
+    rank_base.o = ld -r (parsec_all.o + instrumented driver objects); for each rank k every
+    global symbol *defined* in rank_base.o is renamed to r<k>_<sym> (objcopy --redefine-syms);
+    undefined symbols (libc, MPI_*, __tsan_*, sim_*, harness callbacks) stay shared.
+    The driver must define `void *rank_main(void *)`.
+    """
+    cf = P.cflags(variant)
+    bdir = os.path.join(P.WORK, variant)
+    hdir = os.path.join(P.WORK, "H", name)
+    os.makedirs(hdir, exist_ok=True)
+    cc = cf["cc"]
+    inc = [f for f in cf["flags"] if f.startswith("-I")]
+    base = ["-O2", "-g", "-std=gnu11", "-m64", "-mcx16", "-D_GNU_SOURCE", "-DPARSEC_VERIF_SIM", "-Wall", "-Wno-unused-function"] + list(defines)
+    hdr_deps = [os.path.join(VERIF, "sim/core/sim.h"), os.path.join(VERIF, "harness/hx.h"), os.path.join(VERIF, "oracle/lin.h"),
+                os.path.join(VERIF, "sim/mpi/simmpi.h")]
+    allo = os.path.join(bdir, "parsec_all.o")
+    dobjs = []
+    for src in driver_srcs:
+        o = os.path.join(hdir, os.path.basename(src) + ".i.o")
+        if _newer(o, [src] + hdr_deps):
+            flags = [f for f in cf["flags"] if f != "-DBUILDING_PARSEC" and f != "-Dparsec_EXPORTS"]
+            _run([cc] + flags + cf["instr"] + list(defines) + ["-I" + VERIF, "-I" + P.REPO, "-MD", "-MF", o + ".d", "-c", src, "-o", o])
+        dobjs.append(o)
+    rb = os.path.join(hdir, "rank_base.o")
+    robjs = []
+    if _newer(rb, dobjs + [allo] + list(driver_extra_objs)):
+        _run(["ld", "-r", "-o", rb, allo] + dobjs + list(driver_extra_objs))
+    syms = None
+    for k in range(nranks):
+        ro = os.path.join(hdir, "rank%d.o" % k)
+        if _newer(ro, [rb]):
+            if syms is None:
+                out = _run(["nm", "--defined-only", "-g", rb])
+                syms = sorted(set(l.split()[-1] for l in out.splitlines() if len(l.split()) >= 3))
+            mp = os.path.join(hdir, "map%d.txt" % k)
+            open(mp, "w").write("".join("%s r%d_%s\n" % (s, k, s) for s in syms))
+            _run(["objcopy", "--redefine-syms=" + mp, rb, ro])
+        robjs.append(ro)
+    tab = os.path.join(hdir, "ranks_table.c")
+    txt = "".join("extern void *r%d_rank_main(void *);\n" % k for k in range(nranks))
+    txt += "int hx_rank_count = %d;\nvoid *(*hx_rank_mains[])(void *) = {%s};\n" % (nranks, ", ".join("r%d_rank_main" % k for k in range(nranks)))
+    if not os.path.exists(tab) or open(tab).read() != txt:
+        open(tab, "w").write(txt)
+    objs = []
+    common = [os.path.join(VERIF, "sim/core/sim.c"), os.path.join(VERIF, "harness/hx.c"), os.path.join(VERIF, "oracle/lin.c"),
+              os.path.join(VERIF, "sim/mpi/simmpi.c"), tab]
+    for src in list(plain_srcs) + list(extra_plain) + common:
+        o = os.path.join(hdir, os.path.basename(src) + ".o")
+        if _newer(o, [src] + hdr_deps):
+            _run([cc] + base + inc + ["-I" + VERIF, "-MD", "-MF", o + ".d", "-c", src, "-o", o])
+        objs.append(o)
+    exe = os.path.join(hdir, name)
+    if _newer(exe, objs + robjs):
+        cmd = [cc, "-o", exe] + objs + robjs + ["-Wl,--wrap=" + w for w in WRAPS]
+        cmd += list(extra_libs) + ["-lhwloc", "-lm", "-ldl", "-lpthread"]
+        _run(cmd)
+    return exe
